@@ -77,6 +77,20 @@ pub fn diff(lm: &LMsg, key: Option<&Keyed>, rep: &mut Report) -> Option<Vec<u8>>
         );
         return None;
     }
+    // the other direction: what the library reads from the reference writer's bytes is the logical content (messages without
+    // integrity / fingerprint attributes: their values are not content)
+    if key.is_none() && !lm.attrs.iter().any(|a| matches!(a, L::Mi | L::Sha | L::Fp)) {
+        let want: Vec<L> = lm.attrs.iter().map(menu::expected_decoded).collect();
+        match cu::decode_with(&cu::decoder(cu::Opts::default_ctx(), None), &reference) {
+            Ok(Ok((d, _))) if d.attrs == want && d.method == lm.method && d.class == lm.class && d.tid == lm.tid => {}
+            other => {
+                let got = other.map(|r| r.map(|(d, _)| d.attrs.iter().map(|a| a.show()).collect::<Vec<_>>()));
+                let which = lm.attrs.iter().zip(want.iter()).map(|(a, _)| a.kind()).next().unwrap_or("message");
+                rep.violate(format!("reference-bytes-decode-to-other-content/{}", which), format!("{:?}", got), replay());
+                return None;
+            }
+        }
+    }
     rep.nontrivial_by_construction();
     Some(enc)
 }
@@ -657,7 +671,7 @@ pub fn run(ctx: &RunCtx) -> i32 {
         rep,
         Finish {
             level: "exploration",
-            rule: format!("library bytes compared with the independent reference writer for every message with 0..=2 body attributes over the {}-entry menu x 8 tails (thorough: triples with the full tail), all 16384 message types both directions, XOR attributes under 123 transaction ids, 400 error codes, u16 / ICMP / string-length sweeps, the non-last-attribute sweeps (every blob / string length, walking address bytes, single-bit integers, list lengths 0..=8, UNKNOWN-ATTRIBUTES lists of every length up to 600 and up to 32,760 entries, PASSWORD-ALGORITHMS lists up to 200 / 4096 entries), deep messages (as C01: offsets around 256..4096 / 32768, long runs, repeats, rotations of every kind, quads) without and with the full tail, the offset family of C01 (every 4-aligned body offset 0..=4200 / 16,400, around multiples of 4096 / 1024, every offset 65,300..=65,532) and XOR-* addresses with special wire forms, RFC 5769 vectors (both parsers, re-encoded with the vector's padding byte); values derived from a common ancestor (PASSWORD-ALGORITHMS / UNKNOWN-ATTRIBUTES ancestors of 0..=2 entries, 6 clone / add / encode programs over up to three objects, every ordered pair of distinct elements from a 5 / 4-entry menu: clones that grew to the same length with other content, encodes before and after cloning, in both orders, twice); every ignorable byte of every menu attribute set to 5 patterns, every ignorable bit alone, all together, all 2^k subsets when k<=10. Non-trivial = bytes equal / perturbed message decodes to the canonical value (by public accessors and by the value types' own equality)", n),
+            rule: format!("library bytes compared with the independent reference writer (and, for messages without integrity / fingerprint attributes, the reference writer's bytes decoded by the library compared with the logical content) for every message with 0..=2 body attributes over the {}-entry menu x 8 tails (thorough: triples with the full tail), all 16384 message types both directions, XOR attributes under 123 transaction ids, 400 error codes, u16 / ICMP / string-length sweeps, the non-last-attribute sweeps (every blob / string length, walking address bytes, single-bit integers, list lengths 0..=8, UNKNOWN-ATTRIBUTES lists of every length up to 600 and up to 32,760 entries, PASSWORD-ALGORITHMS lists up to 200 / 4096 entries), deep messages (as C01: offsets around 256..4096 / 32768, long runs, repeats, rotations of every kind, quads) without and with the full tail, the offset family of C01 (every 4-aligned body offset 0..=4200 / 16,400, around multiples of 4096 / 1024, every offset 65,300..=65,532) and XOR-* addresses with special wire forms, RFC 5769 vectors (both parsers, re-encoded with the vector's padding byte); values derived from a common ancestor (PASSWORD-ALGORITHMS / UNKNOWN-ATTRIBUTES ancestors of 0..=2 entries, 6 clone / add / encode programs over up to three objects, every ordered pair of distinct elements from a 5 / 4-entry menu: clones that grew to the same length with other content, encodes before and after cloning, in both orders, twice); every ignorable byte of every menu attribute set to 5 patterns, every ignorable bit alone, all together, all 2^k subsets when k<=10. Non-trivial = bytes equal / perturbed message decodes to the canonical value (by public accessors and by the value types' own equality)", n),
             assumptions: vec![
                 "R-codec follows the library for two RFC ambiguities: the last PASSWORD-ALGORITHMS entry is padded by the attribute padding, RESPONSE-PORT has length 2".into(),
                 "reference codec written from the RFCs by the harness author; checked against RFC 5769 vectors at start-up".into(),
